@@ -114,60 +114,77 @@ def run(tier: str = "quick", seed: int = 0) -> dict:
             failures.append({"what": what, "kf": None, "snippet": "import rt.c04 as c, sys\nr = c.run()\nfor f in r['failures'][:5]: print(f['what'])\nsys.exit(1 if r['failures'] else 0)"})
 
     opt_sets = [None, {SerializationOption.SORT_KEYS: True}]
+    class _Skip(Exception):
+        pass
+
+    def guarded(de, what):
+        # a deserialization that raises is a failed round trip (reported with its input), not a crash of this driver
+        def f(c, d, **k):
+            try:
+                return de(c, d, **k)
+            except Exception as e:
+                fail(f"{what}: reading the payload back raised {type(e).__name__}: {e!s:.100}")
+                raise _Skip()
+        return f
+
     for ti, root in enumerate(trees(pool)):
-        nodes = M.ref_nodes(root) if type(root) in M.CHILD_FIELDS else _nodes(root)
-        for fmt, (ser, de) in FORMATS.items():
-            for opts in opt_sets:
-                kw = {"serialization_options": opts} if opts else {}
+        try:
+            nodes = M.ref_nodes(root) if type(root) in M.CHILD_FIELDS else _nodes(root)
+            for fmt, (ser, de0) in FORMATS.items():
+                de = guarded(de0, f"tree #{ti} {fmt}")
+                for opts in opt_sets:
+                    kw = {"serialization_options": opts} if opts else {}
+                    evals += 1
+                    distinct.add((ti, fmt, str(opts), "alive"))
+                    try:
+                        data = ser(root, **kw)
+                        back = de(type(root), data)
+                    except Exception as e:
+                        fail(f"tree #{ti} {fmt} {opts}: round trip raised {type(e).__name__}: {e!s:.100}")
+                        continue
+                    if back is not root:
+                        fail(f"tree #{ti} {fmt}: all originals registered, but the round trip returned another object")
+                    # none alive: detach everything, deserialize, compare at every position
+                    evals += 1
+                    distinct.add((ti, fmt, str(opts), "dead"))
+                    root.detach()
+                    try:
+                        back = de(type(root), data)
+                        r = same(root, back)
+                        if r:
+                            fail(f"tree #{ti} {fmt} {opts}, originals detached: {r}")
+                        elif not (back == root):
+                            fail(f"tree #{ti} {fmt}: result is not == to the original")
+                        bn = _nodes(back)
+                        if any(ASTNode.get_any(x.id) is not x for x in bn):
+                            fail(f"tree #{ti} {fmt}: a deserialized node is not registered under its id")
+                        # shared nodes are shared again
+                        on = _nodes(root)
+                        for i, j in itertools.combinations(range(len(on)), 2):
+                            if (on[i] is on[j]) != (bn[i] is bn[j]):
+                                fail(f"tree #{ti} {fmt}: sharing of node objects not preserved (positions {i}, {j})")
+                                break
+                        back.detach()
+                    except Exception as e:
+                        fail(f"tree #{ti} {fmt} {opts}, originals detached: raised {type(e).__name__}: {e!s:.100}")
+                    # re-register the originals for the next format (fresh construction is not possible: re-deserialize)
+                    root = de(type(root), data)
+                # some alive: keep only the children alive
                 evals += 1
-                distinct.add((ti, fmt, str(opts), "alive"))
-                try:
-                    data = ser(root, **kw)
-                    back = de(type(root), data)
-                except Exception as e:
-                    fail(f"tree #{ti} {fmt} {opts}: round trip raised {type(e).__name__}: {e!s:.100}")
-                    continue
-                if back is not root:
-                    fail(f"tree #{ti} {fmt}: all originals registered, but the round trip returned another object")
-                # none alive: detach everything, deserialize, compare at every position
-                evals += 1
-                distinct.add((ti, fmt, str(opts), "dead"))
-                root.detach()
-                try:
-                    back = de(type(root), data)
-                    r = same(root, back)
-                    if r:
-                        fail(f"tree #{ti} {fmt} {opts}, originals detached: {r}")
-                    elif not (back == root):
-                        fail(f"tree #{ti} {fmt}: result is not == to the original")
-                    bn = _nodes(back)
-                    if any(ASTNode.get_any(x.id) is not x for x in bn):
-                        fail(f"tree #{ti} {fmt}: a deserialized node is not registered under its id")
-                    # shared nodes are shared again
-                    on = _nodes(root)
-                    for i, j in itertools.combinations(range(len(on)), 2):
-                        if (on[i] is on[j]) != (bn[i] is bn[j]):
-                            fail(f"tree #{ti} {fmt}: sharing of node objects not preserved (positions {i}, {j})")
-                            break
-                    back.detach()
-                except Exception as e:
-                    fail(f"tree #{ti} {fmt} {opts}, originals detached: raised {type(e).__name__}: {e!s:.100}")
-                # re-register the originals for the next format (fresh construction is not possible: re-deserialize)
-                root = de(type(root), data)
-            # some alive: keep only the children alive
-            evals += 1
-            data = ser(root)
-            kids = [c for c in _nodes(root)[1:]]
-            root.detach_self()
-            back = de(type(root), data)
-            if any(a is not b for a, b in zip(_nodes(back)[1:], kids)):
-                fail(f"tree #{ti} {fmt}: a still-registered descendant was not re-used")
-            if same(root, back):
-                fail(f"tree #{ti} {fmt}, root dropped / children alive: {same(root, back)}")
-            root = back
-        if len(samples) < 3:
-            samples.append({"tree": f"#{ti} {type(root).__name__}", "formats": list(FORMATS)})
-        root.detach()
+                data = ser(root)
+                kids = [c for c in _nodes(root)[1:]]
+                root.detach_self()
+                back = de(type(root), data)
+                if any(a is not b for a, b in zip(_nodes(back)[1:], kids)):
+                    fail(f"tree #{ti} {fmt}: a still-registered descendant was not re-used")
+                if same(root, back):
+                    fail(f"tree #{ti} {fmt}, root dropped / children alive: {same(root, back)}")
+                root = back
+            if len(samples) < 3:
+                samples.append({"tree": f"#{ti} {type(root).__name__}", "formats": list(FORMATS)})
+            root.detach()
+        except _Skip:
+            continue
     # ids with collision suffixes: twins outside the tree are registered, then everything is dropped
     for fmt, (ser, de) in FORMATS.items():
         evals += 1
@@ -178,7 +195,10 @@ def run(tier: str = "quick", seed: int = 0) -> dict:
             fail("twin did not get a collision-suffixed id")
         data = ser(holder)
         holder.detach(); t0.detach_self()
-        back = de(RtRich, data)
+        try:
+            back = guarded(de, f"{fmt} collision-suffixed id")(RtRich, data)
+        except _Skip:
+            continue
         if back.child.id != t1.id or same(holder, back):
             fail(f"{fmt}: node serialized with a collision-suffixed id came back as {back.child.id} (expected {t1.id}) / {same(holder, back)}")
         stale = [k for k, v in list(NODE_REGISTRY.items()) if v is back.child and k != back.child.id]
